@@ -1,7 +1,7 @@
 """C13 — Filter exemptions track outstanding exchanges exactly."""
 import re
 
-from analysis import (Prov, Guards, fmt, fmt_short, walk, roots, short, comparison, propagate, witness, edge_label,
+from analysis import (membership_test, mirror, Prov, Guards, fmt, fmt_short, walk, roots, short, comparison, propagate, witness, edge_label,
                       find_calls, callee_matches, awaited_in_place, must_pass, path_to, describe_path,
                       normalised_cmp, const_int_of)
 from facts import AnchorError, strip_closure
@@ -579,12 +579,11 @@ def r3(ctx):
         while inner[0] == "un" and inner[1] == "Not":
             inner = inner[2]
             neg = not neg
-        if inner[0] == "call" and re.search(r"Option::is_some$", short(inner[1])):
-            s_ = fmt_short(inner)
-            if "expected_responses" in s_ and "HashMap::get" in s_ and "src_address" in s_:
-                f, tr = g.bool_edges(bi)
-                exempt_true_edges.append((bi, f if neg else tr, fmt_short(inner)))
-    rule.check(bool(exempt_true_edges), "handle_inbound: exemption test is expected_responses.get(&src_address).is_some()",
+        mt = membership_test(inner)
+        if mt is not None and "expected_responses" in fmt_short(mt[0]) and fmt_short(mt[1]).endswith("src_address"):
+            f, tr = g.bool_edges(bi)
+            exempt_true_edges.append((bi, f if (neg != mt[2]) else tr, fmt_short(inner)))
+    rule.check(bool(exempt_true_edges), "handle_inbound: exemption test is membership of the source address in expected_responses",
                "handle_inbound|exemption-test", "the receive task no longer tests presence of the source address in the ledger",
                loc=hi.loc(hi.line), detail=str([x[2] for x in exempt_true_edges][:1]))
     for k, lst in pass_calls.items():
